@@ -58,7 +58,10 @@ fn main() {
         }
         "C11" => {
             let mut sink = cases::CaseSink::new("C11", "Corr.C11 Corr.BinCorr Model.BinaryStart", &opts.out, 200);
+            sink.wrap = Some(("XBin".into(), "C11".into()));
             props::c11::generate(&opts, &mut sink);
+            sink.wrap = None;
+            props::c11::generate_zip_loops(&opts, &mut sink);
             sink.finish(props::c11::RULE, serde_json::json!({}));
         }
         "C13" => {
